@@ -117,6 +117,7 @@ type ZkOp struct {
 	PostData    string
 	Children    []string
 	Removed     []string // ephemerals removed by Expire/Close
+	PreOwnerClient string // Delete: client owning the removed ephemeral ("" none, "-" persistent)
 }
 
 // ZkHook lets a scheduler gate mutating operations.  Before returns an
@@ -842,6 +843,13 @@ func (s *ZkServer) handle(sess *zkSession, client string, op int32, in *jin) (co
 		}
 		if len(n.children) > 0 {
 			return finish(zkErrNotEmpty)
+		}
+		rec.PreOwnerClient = "-"
+		if n.owner != 0 {
+			rec.PreOwnerClient = "?"
+			if se := s.sessions[n.owner]; se != nil {
+				rec.PreOwnerClient = se.client
+			}
 		}
 		s.zxid++
 		s.removeLocked(path)
